@@ -479,7 +479,9 @@ def judgeSend (js : JState) (v2 : Bool) (req : List SeriesD) (o : ImplOut) : Lis
   -- another value: which of the two a query shows is not prescribed
   let collides := fun (a : Acc) =>
     ((js.pre.get a.x.key).any fun q => q.t == a.x.t && q.val != a.x.val) ||
-    (decide (js.oooWin > 0) && k.acc.any fun b => b.x.key == a.x.key && b.x.t == a.x.t && b.x.val != a.x.val)
+    (decide (js.oooWin > 0) &&
+      ((k.acc.any fun b => b.x.key == a.x.key && b.x.t == a.x.t && b.x.val != a.x.val) ||
+       (k.extras.any fun e => e.1 == a.x.key && e.2.t == a.x.t && e.2.val != a.x.val)))
   let vMissing :=
     if mustFail then [] else
     match k.acc.filter (fun a => a.clean && !collides a &&
